@@ -403,6 +403,13 @@ func init() {
 				mode := []string{"lonely-self", "absent"}[i%2]
 				cs = append(cs, CaseSpec{Kind: "live", P: map[string]int64{"n": int64(3 + (i/2)%4), "limit": int64(3 + (i*5)%8), "pendingjoin": int64(i % 2)}, S: map[string]string{"mode": mode}})
 			}
+			rets := 48
+			if tier == "thorough" {
+				rets = 480
+			}
+			for i := 0; i < rets; i++ {
+				cs = append(cs, CaseSpec{Kind: "live", P: map[string]int64{"limit": int64(1 + i%5), "ret": 1}, S: map[string]string{"mode": "babble-return"}})
+			}
 			for i := 0; i < 2*raceSoaks(tier); i++ {
 				mode := []string{"lonely-self", "absent"}[i%2]
 				cs = append(cs, CaseSpec{Kind: "live", P: map[string]int64{"n": int64(3 + (i/2)%4), "limit": int64(4 + (i*5)%8), "pendingjoin": int64((i / 2) % 2)}, S: map[string]string{"mode": mode, "race": "1"}})
